@@ -96,6 +96,26 @@ def run_c18(prop, cfg, tier, seed):
     printed = []
     nviol = 0
     model_cmp = model_reference(outdir, dump_f, solo_f, seed)
+    # a second, small run on the family whose result depends on WHICH rule evaluates a shared node (Statistics keys of a
+    # choice inside an inline recovery expression, thrown to from two rules): pvgen is told to draw it (PVGEN_FORCE)
+    dump2, solo2 = os.path.join(outdir, "groups2.txt"), os.path.join(outdir, "solo2.txt")
+    for f in (dump2, solo2):
+        if os.path.exists(f):
+            os.remove(f)
+    cmd2 = [os.path.join(core.BIN, "pvconc"), "-hosts", RACE_HOSTS, "-seed", str(seed + 1), "-groups", str(32 if tier == "quick" else 400),
+            "-rounds", "8", "-profiles", "throw", "-j", str(max(2, core.NCPU // 2)), "-pvgen", os.path.join(core.BIN, "pvgen"), "-out", outdir,
+            "-dump", dump2, "-solo", solo2]
+    p2 = subprocess.run(cmd2, stdout=subprocess.PIPE, stderr=subprocess.PIPE, timeout=7200, env=dict(os.environ, PVGEN_FORCE="statsrec"))
+    if p2.returncode != 0:
+        raise RuntimeError("pvconc (second run) failed: " + p2.stderr.decode()[-2000:])
+    res2 = json.loads(p2.stdout.decode())
+    for key in ("mismatches", "races"):
+        res[key] = (res.get(key) or []) + (res2.get(key) or [])
+    for key in ("timeouts", "crashes", "groups", "cases", "concurrent_parses", "solo_parses"):
+        res[key] = (res.get(key) or 0) + (res2.get(key) or 0)
+    mc2 = model_reference(outdir, dump2, solo2, seed)
+    for k, v in mc2.items():
+        model_cmp[k] = model_cmp[k] + v
 
     def rep(kind, obj, failing=True):
         nonlocal nviol
